@@ -312,7 +312,7 @@ func genMalformed(r *rng.R) corr.Case {
 // ---------------------------------------------------------------- exhaustive small scope (thorough tier)
 // every maximal script of at most maxLen events over at most maxActive simultaneous callers and the given keys
 
-func enumScripts(rw, maxLen, maxActive int, keys []string) [][]string {
+func enumScripts(rw, maxLen, maxActive int, keys []string, withRelx bool) [][]string {
 	var out [][]string
 	type ev struct {
 		line string
@@ -333,6 +333,10 @@ func enumScripts(rw, maxLen, maxActive int, keys []string) [][]string {
 				s.release(t)
 			case "cancel":
 				s.cancel(t)
+			case "relx":
+				u, _ := strconv.Atoi(f[2])
+				s.release(t)
+				s.cancel(u)
 			}
 		}
 		return s
@@ -355,6 +359,16 @@ func enumScripts(rw, maxLen, maxActive int, keys []string) [][]string {
 		}
 		for _, t := range waiting {
 			opts = append(opts, "cancel "+strconv.Itoa(t))
+		}
+		if withRelx {
+			// a waiter's context ends during a release of the same key
+			for _, t := range holders {
+				for _, u := range waiting {
+					if s.calls[t].key == s.calls[u].key {
+						opts = append(opts, fmt.Sprintf("relx %d %d", t, u))
+					}
+				}
+			}
 		}
 		if len(opts) == 0 {
 			out = append(out, append([]string{}, prefix...))
@@ -379,8 +393,8 @@ var (
 
 func enumCases() []corr.Case {
 	enumOnce.Do(func() {
-		add := func(rw, maxLen, maxActive int, keys []string, variant string) {
-			for _, sc := range enumScripts(rw, maxLen, maxActive, keys) {
+		add := func(rw, maxLen, maxActive int, keys []string, variant string, withRelx bool) {
+			for _, sc := range enumScripts(rw, maxLen, maxActive, keys, withRelx) {
 				lines := append([]string{fmt.Sprintf("new %s %d 2", variant, rw)}, sc...)
 				lines = append(lines, "who", "entries")
 				for _, k := range keys {
@@ -389,9 +403,10 @@ func enumCases() []corr.Case {
 				enumAll = append(enumAll, corr.Case{Tag: fmt.Sprintf("exhaustive-rw%d-len%d", rw, maxLen), Lines: lines})
 			}
 		}
-		add(2, 7, 3, []string{"i0", "i1"}, "single")
-		add(1, 6, 3, []string{"i0"}, "wide")
-		add(3, 7, 4, []string{"sk"}, "xhash")
+		add(2, 7, 3, []string{"i0", "i1"}, "single", false)
+		add(1, 6, 3, []string{"i0"}, "wide", true)
+		add(3, 7, 4, []string{"sk"}, "xhash", false)
+		add(2, 6, 3, []string{"i5"}, "single", true)
 	})
 	return enumAll
 }
@@ -436,7 +451,7 @@ func spec() corr.Spec {
 		Count: func(tier string) int {
 			switch tier {
 			case "quick":
-				return 3000
+				return 2400
 			case "thorough":
 				return 50000 + len(enumCases())
 			default: // search
@@ -479,7 +494,7 @@ func spec() corr.Spec {
 			}
 			return "C01:corr:" + op
 		},
-		Rule: "scripts of acqR/acqW/acqRx/acqWx/rel/relx/cancel events (quiescence after each) over <= 6 (thorough <= 17) simultaneous callers, 1-3 keys (int and string, incl. MinInt64/MaxInt64/empty string), rwRatio in {1,2,3,4,10}, single/wide/xhash maps with prime in {1,2,3,73,default 211}; 5 generator classes (rw-mix, reader-heavy, writer-heavy, cancel-heavy, drain) + 1/12 malformed; thorough adds every maximal script <= 7 events over 3 callers x 2 keys (rw 2), <= 6 events (rw 1), <= 7 events over 4 callers (rw 3). A case is non-trivial when some caller had to wait or a release/cancel admitted a waiter; distinct = distinct script text",
+		Rule: "scripts of acqR/acqW/acqRx/acqWx/rel/relx/cancel events (quiescence after each) over <= 6 (thorough <= 17) simultaneous callers, 1-3 keys (int and string, incl. MinInt64/MaxInt64/empty string), rwRatio in {1,2,3,4,10}, single/wide/xhash maps with prime in {1,2,3,73,default 211}; 5 generator classes (rw-mix, reader-heavy, writer-heavy, cancel-heavy, drain) + 1/12 malformed; thorough adds every maximal script <= 7 events over 3 callers x 2 keys (rw 2), <= 7 events over 4 callers (rw 3), <= 6 events incl. relx (rw 1, rw 2). A case is non-trivial when some caller had to wait or a release/cancel admitted a waiter; distinct = distinct script text",
 		Assumptions: []string{
 			"sync.Mutex makes each of the three critical sections (acquire up to Unlock, release, cancel fix-up) atomic; channels/select/context behave as documented",
 			"callers release what they acquired, with the same key and the matching Release* (read/write)",
